@@ -9,9 +9,9 @@ import (
 	"encoding/binary"
 	"encoding/json"
 	"flag"
+	"fmt"
 	"io"
 	"log"
-	"fmt"
 	"os"
 	"path/filepath"
 	"runtime/debug"
